@@ -172,19 +172,34 @@ func steerMapInput(which string, t *big.Int) (*big.Int, bool) {
 //     (x* = (7 - B')/A', where x^3 + A'x + B' = x^3 + 7), the roots of the isogeny's x denominator, small x.
 func steeredMapInputs(c *mon.Ctx) (us, xs []steeredInput) {
 	p := oracle.P
+	// (a child running a much slower build of the monitors solves for every Stride-th target only)
+	nth, stride := 0, c.Stride()
+	skip := func() bool {
+		nth++
+		return stride > 1 && nth%stride != 0
+	}
+
 	addU := func(which string, t *big.Int) {
+		if skip() {
+			return
+		}
+
 		if u, ok := steerMapInput(which, t); ok {
 			us = append(us, steeredInput{u, "steered:" + which})
 		}
 	}
 	addX := func(which string, t *big.Int) {
+		if skip() {
+			return
+		}
+
 		if x, ok := steerMapInput(which, t); ok {
 			xs = append(xs, steeredInput{x, "steered:" + which})
 		}
 	}
 
 	targets := gen.StoredTargets(p)
-	strideT := c.Stride()
+	strideT := 1
 
 	for ti := int(c.Seed % uint64(strideT)); ti < len(targets); ti += strideT {
 		for _, which := range []string{"u2", "tv1", "tv2", "tv3", "tv6"} {
